@@ -478,7 +478,7 @@ void test_ma(uint64_t cs, int n, int nx, int xk, int nf, bool emit, bool scalar_
         p += l;
     }
     base_array<T> yf(nx);
-    if (n >= 2) { FirFilter<T> f(taps); yf = f.process(x); }   // FirFilter needs >= 2 taps (h.size()-1 history)
+    { FirFilter<T> f(taps); yf = f.process(x); }   // incl. n = 1: a one-tap FirFilter (no history)
     vh::clear_current();
     out.stat(std::string("ma") + tn + "_cases");
     out.stat(std::string("input_") + XK[xk]);
@@ -502,7 +502,7 @@ void test_ma(uint64_t cs, int n, int nx, int xk, int nf, bool emit, bool scalar_
         out.n_oracle++;
         if (S2 > 0) maxstat("ma_worst_err_over_eps_sumabs2n_x1000", (long long)(1000 * e * n / (EPS * S2 + DMIN)));
         if (!(e <= bound) || !finiteT(y[t])) { out.fail(std::string("C07:ma-sum-") + tn, case_json("MAFilter", tn, n, -1, nx, xk, lens, cs, t, e, bound)); break; }
-        if (n >= 2) {   // the library's own FIR filter with n taps 1/n
+        {   // the library's own FIR filter with n taps 1/n
             const ld e2 = errL(toL(yf[t]), y[t]);
             const ld bound2 = bound + (n + 8) * EPS * S1 / n + (n + 8) * DMIN;
             out.n_oracle++;
@@ -695,9 +695,9 @@ int main(int argc, char** argv) {
 
     // ---- FirFilter / FftFilter: tap counts
     std::vector<int> nhs;
-    if (TH) for (int nh = 2; nh <= 1024; ++nh) nhs.push_back(nh);
+    if (TH) for (int nh = 1; nh <= 1024; ++nh) nhs.push_back(nh);   // 1 tap: a pure gain (no history; once threw on every call, repaired in /repo)
     else {
-        const int q[] = {2, 3, 4, 5, 7, 8, 9, 16, 17, 31, 32, 33, 64, 100, 129, 255, 256, 257, 511, 512, 513, 1000, 1023, 1024};
+        const int q[] = {1, 2, 3, 4, 5, 7, 8, 9, 16, 17, 31, 32, 33, 64, 100, 129, 255, 256, 257, 511, 512, 513, 1000, 1023, 1024};
         for (int v : q) nhs.push_back(v);
         for (int j = 0; j < 24; ++j) nhs.push_back(rng.range(2, 1024));
     }
